@@ -82,6 +82,18 @@ func (s Emitter) writeOperand(output io.Writer, parentPrecedence int, operand cy
 	return err
 }
 
+// formatFloatLiteral formats a floating point literal so that it stays a floating point literal when parsed again:
+// the shortest representation of an integral value such as 1.0 has no fractional part and would read as an integer.
+func formatFloatLiteral(value float64) string {
+	formatted := strconv.FormatFloat(value, 'f', -1, 64)
+
+	if !strings.ContainsAny(formatted, ".eEIN") {
+		formatted += ".0"
+	}
+
+	return formatted
+}
+
 func NewCypherEmitter(stripLiterals bool) Emitter {
 	return Emitter{
 		StripLiterals: stripLiterals,
@@ -478,12 +490,12 @@ func (s Emitter) formatLiteral(output io.Writer, literal *cypher.Literal) error 
 		}
 
 	case float32:
-		if _, err := io.WriteString(output, strconv.FormatFloat(float64(typedLiteral), 'f', -1, 64)); err != nil {
+		if _, err := io.WriteString(output, formatFloatLiteral(float64(typedLiteral))); err != nil {
 			return err
 		}
 
 	case float64:
-		if _, err := io.WriteString(output, strconv.FormatFloat(typedLiteral, 'f', -1, 64)); err != nil {
+		if _, err := io.WriteString(output, formatFloatLiteral(typedLiteral)); err != nil {
 			return err
 		}
 
